@@ -115,6 +115,33 @@ def replay_index_case(case):
         except Exception as ex:  # noqa
             fails.append((sig("index-read-raised", producer="encoder", exception=type(ex).__name__),
                           dict(bundle, exception="%s: %s" % (type(ex).__name__, ex))))
+        # the same file stored as DAQmx raw data, with its index beside it
+        from .truncate import daqmx_twin
+        twin = daqmx_twin(frec, fd, tys, zlib.crc32(repr(frec).encode()) + seed)
+        if twin is not None:
+            e2 = enc.encode(twin[0], seed)
+            dq_plain = os.path.join(tmp, "dq_plain.tdms")
+            dq_idx = os.path.join(tmp, "dq_indexed.tdms")
+            for pth, blob in ((dq_plain, e2.data), (dq_idx, e2.data), (dq_idx + "_index", e2.index)):
+                with open(pth, "wb") as fh:
+                    fh.write(blob)
+            n += 1
+            try:
+                a, b = _views(TdmsFile, dq_plain), _views(TdmsFile, dq_idx)
+                want = {nm: proj.expected_elems(twin[1][nm], list(e2.scaler_values.get(PATH[nm], {}).get(0, [])))
+                        for nm in twin[1]}
+                for api in ("read", "open", "meta"):
+                    if a[api] != b[api]:
+                        fails.append((sig("index-not-transparent", api=api, producer="encoder", storage="daqmx"),
+                                      dict(bundle, api=api, without_index=a[api], with_index=b[api], hex=e2.data.hex())))
+                for nm in want:
+                    got = b["read"]["chans"].get(PATH[nm])
+                    if got is None or got.get("data") != want[nm]:
+                        fails.append((sig("reference-read-wrong", storage="daqmx"), dict(bundle, channel=nm, hex=e2.data.hex())))
+                obs["daqmx_twins"] = 1
+            except Exception as ex:  # noqa
+                fails.append((sig("index-read-raised", producer="encoder", storage="daqmx", exception=type(ex).__name__),
+                              dict(bundle, exception="%s: %s" % (type(ex).__name__, ex), hex=e2.data.hex())))
         # index alone: same objects, properties, types, lengths; data reads refused
         if not frec["marker"]:
             entries = (("open", TdmsFile.open), ("read", TdmsFile.read), ("meta", TdmsFile.read_metadata),
